@@ -34,7 +34,7 @@ class CobaRandom:
         if isinstance(seed,int) or (isinstance(seed,float) and seed.is_integer()):
             seed = int(seed)
         else:
-            seed = int.from_bytes(str(seed or time.time()).encode('utf-8'),"big") % 2**20
+            seed = int.from_bytes(str(time.time() if seed is None else seed).encode('utf-8'),"big") % 2**20
 
         self._seed  = seed
         self._randu = self._next_uniform(116646453,seed,9,2**30)
